@@ -13,9 +13,6 @@ namespace SV
 /-- the dot item `"."` -/
 abbrev dotItem : Str := ['.']
 
-/-- the symbol `"[nop]"` -/
-abbrev nopSym : Str := "[nop]".toList
-
 /-- `"[" ++ body ++ "]"` -/
 def symbolOf (body : Str) : Str := '[' :: body ++ [']']
 
